@@ -44,6 +44,7 @@ type Shared struct {
 	inputTag    []string
 	lazyMemo    map[string]StoreEntry
 	reachWanted map[string]int
+	reachSat    map[string]bool
 	pending     []*FinalQuery
 	notes       map[string]bool
 	boundsUsed  map[string]int
@@ -655,6 +656,12 @@ func (e *Exec) symBranchVisit(f *Frame) {
 }
 
 func (e *Exec) startPanic(s *State, v IfaceV) {
+	if e.trace && e.initMode {
+		fmt.Fprintf(os.Stderr, "panic during init: %v in %s\n", v.V, top(s).Fn)
+		for i := len(s.Frames) - 1; i >= 0 && i > len(s.Frames)-6; i-- {
+			fmt.Fprintf(os.Stderr, "   at %s\n", s.Frames[i].Fn)
+		}
+	}
 	s.Panic = &v
 	s.Frames[len(s.Frames)-1].Panicking = true
 }
@@ -1127,7 +1134,12 @@ func (e *Exec) valEq(a, b Val) string {
 		}
 		return tAnd(cs...)
 	case BigV:
-		panic("comparison of math.Int/Dec structs with == (pointer identity) is not modelled")
+		// == on math.Int / LegacyDec structs compares the *big.Int pointers: two separately produced values are never
+		// identical (stated approximation: a value compared with a copy of itself is not recognised)
+		if x.Nil && b.(BigV).Nil {
+			return "true"
+		}
+		return "false"
 	case TimeV:
 		return tEq(x.T, b.(TimeV).T)
 	case OpaqueV:
